@@ -7,6 +7,7 @@ import (
 	"fmt"
 	"math/rand"
 	"os"
+	"runtime"
 	"strings"
 	"time"
 
@@ -27,7 +28,7 @@ type FaultScenario struct {
 	K     int    `json:"k"`     // byte offset for the cut faults
 }
 
-const faultTimeout = 150 * time.Millisecond
+const faultTimeout = 300 * time.Millisecond
 
 func (s *session) waitFinished(names []string, d time.Duration) []string {
 	deadline := time.Now().Add(d)
@@ -227,7 +228,7 @@ func (s *session) faultRun(r *rig.Rig, w *rec.Writer, sc FaultScenario) error {
 				return err
 			}
 			peer = p
-			if err := p.Register(2 * time.Second); err != nil {
+			if err := p.Register(20 * time.Second); err != nil {
 				return fmt.Errorf("raw peer registration: %w", err)
 			}
 		} else {
@@ -237,7 +238,10 @@ func (s *session) faultRun(r *rig.Rig, w *rec.Writer, sc FaultScenario) error {
 			}
 			stubs = append(stubs, p)
 		}
-		if miss := s.waitFinished([]string{full}, 5*time.Second); len(miss) > 0 {
+		if miss := s.waitFinished([]string{full}, 20*time.Second); len(miss) > 0 {
+			buf := make([]byte, 1<<20)
+			n := runtime.Stack(buf, true)
+			os.Stderr.Write(buf[:n])
 			return fmt.Errorf("plugin %s did not finish registration", full)
 		}
 	}
@@ -288,14 +292,22 @@ func RunFaults(in, out string, seed int64) (int, error) {
 		}
 		n++
 		s.run = n
-		// a fresh adaptation per scenario: nothing lingers from the previous one
-		r, err := rig.New()
-		if err != nil {
-			return 0, err
+		// a fresh adaptation per scenario: nothing lingers from the previous one; a scenario whose set-up
+		// fails (a registration timing out on an overloaded machine) is set up again, nothing was recorded yet
+		var err error
+		for attempt := 0; attempt < 3; attempt++ {
+			var r *rig.Rig
+			r, err = rig.New()
+			if err != nil {
+				return 0, err
+			}
+			s.installSync(r)
+			err = s.faultRun(r, w, fs)
+			r.Close()
+			if err == nil {
+				break
+			}
 		}
-		s.installSync(r)
-		err = s.faultRun(r, w, fs)
-		r.Close()
 		if err != nil {
 			return 0, fmt.Errorf("scenario %d (%s): %w", n, line, err)
 		}
